@@ -307,8 +307,60 @@ fn beyond_f32(ctx: &mut Ctx) {
     }
 }
 
+/// Fully filled hypercubes in MANY dimensions (ndim 5..10 lie outside the exhaustive grid) and their
+/// neighbours k^d - 1, k^d + 1: the edge-length estimate is most fragile exactly there. Compared with
+/// the brute-force oracle at a few centres and radii.
+fn perfect_powers(ctx: &mut Ctx) {
+    if ctx.is_fuzz() || ctx.mode == "miri" {
+        return;
+    }
+    let limit = ctx.n(120_000, 1_500_000) as u128;
+    let mut case = 6_000_000u64;
+    for d in 3..=12usize {
+        for k in 2..=40u128 {
+            let p = k.pow(d as u32);
+            if p > limit {
+                break;
+            }
+            for n in [p - 1, p, p + 1] {
+                let n = n as usize;
+                if n < 2 {
+                    continue;
+                }
+                case += 1;
+                if !ctx.mine(case) {
+                    continue;
+                }
+                ctx.rec.case_marker(case, &format!("perfect power family ntotal={} ndim={}", n, d));
+                for idx in [0usize, n / 2, n - 1] {
+                    for rad in [0.0f32, 1.0, 1.5] {
+                        let got = guarded(|| Topology::find_neighbors(&n, &d, &idx, &rad));
+                        ctx.rec.count("neighbourhoods", 1);
+                        ctx.rec.count("perfect_power_cases", 1);
+                        match got {
+                            Err(p) => ctx.rec.violation("C20", &format!("find_neighbors|panic|{}", panic_sig(&p)), &format!("{} ; ntotal={} ndim={} index={} radius={}", p, n, d, idx, rad), ""),
+                            Ok(None) => ctx.rec.violation("C20", "find_neighbors|none-for-valid-arguments", &format!("None for ntotal={} ndim={} index={} radius={}", n, d, idx, rad), ""),
+                            Ok(Some(v)) => {
+                                let (sure, dc) = neighbours_ref(n, d, idx, rad);
+                                let gotv = v.values;
+                                let bad = sure.iter().any(|s| !gotv.contains(s)) || gotv.iter().any(|g| !sure.contains(g) && !dc.contains(g));
+                                if bad {
+                                    ctx.rec.violation("C20", "find_neighbors|many-dimensions", &format!("ntotal={} ndim={} (exact edge {}) index={} radius={}: got {:?}, expected {:?}", n, d, edge_len(n, d), idx, rad, gotv.iter().take(16).collect::<Vec<_>>(), sure.iter().take(16).collect::<Vec<_>>()), "");
+                                }
+                            }
+                        }
+                    }
+                }
+                ctx.rec.cover(&format!("pp|d{}|k{}|{}", d, k, n as i128 - p as i128));
+            }
+        }
+    }
+}
+
 pub fn run(ctx: &mut Ctx) {
     grid(ctx);
+    ctx.rec.checkpoint();
+    perfect_powers(ctx);
     ctx.rec.checkpoint();
     beyond_f32(ctx);
     ctx.rec.checkpoint();
